@@ -29,12 +29,25 @@ structure CallOut (L : Layout) (ck : Checksum) (w : Writer) (d : Disk) (g : G) (
   done : (gfin L g al).done = doneAfterF L ck w c f g.done
   nosc : ∀ m, (eraseAll (al.take m)).length < (eraseAll al).length → NoSC (al.take m)
   rootw : ∀ r off b, AOp.rootw r off b ∈ al → r ∈ c.attempt ck w
+  recs : (gfin L g al).recs = g.recs ++ recsAfterF L ck w c f
+  adv : ∀ r, AOp.advance r ∈ al → r = c.toRec w
 
 theorem noSC_take {l : List AOp} (h : NoSC l) (m : Nat) : NoSC (l.take m) :=
   fun a ha => h a (List.mem_of_mem_take ha)
 
 theorem link_free {w : Writer} {g : G} (hl : Link w g) : w.root.free.toNat = g.free := by
   simp [hl.free]
+
+theorem recsAfterF_same (w : Writer) (c : Call) (f : Fault)
+    (h : (w.stepF L ck c f).1.root.free = w.root.free) : recsAfterF L ck w c f = [] := by
+  unfold recsAfterF; rw [if_pos h]
+
+theorem recsAfterF_moved {w : Writer} {g : G} (hl : Link w g) (c : Call) (f : Fault) (n : Nat)
+    (h : (w.stepF L ck c f).1.root.free = ((w.root.free.toNat + 4 + n : Nat) : Int)) :
+    recsAfterF L ck w c f = [c.toRec w] := by
+  unfold recsAfterF
+  rw [if_neg]
+  rw [h, hl.free]; simp only [Int.toNat_natCast]; omega
 
 /-- a failing append (also the append part of a commit) -/
 theorem out_fail_append (hL : L.OK) {w : Writer} {d : Disk} {g : G} (q : GQ L ck d g) (hl : Link w g)
@@ -54,8 +67,11 @@ theorem call_io (hL : L.OK) {w : Writer} {d : Disk} {g : G} (q : GQ L ck d g) (h
     · -- success
       have e : w.stepF L ck (.append b refs) f = ((w.appendAt L b).1, (w.appendAt L b).2.2, true) := by
         simp only [Writer.stepF, Writer.appendAtF, if_pos hok]
-      obtain ⟨h1, h2, h3⟩ := gfin_appA L w b refs g
-      refine ⟨appA L w b refs, ?_, conf_appA hL q hl b refs, ?_, ?_, fun m _ => noSC_take (noSC_appA L w b refs) m, ?_⟩
+      obtain ⟨h1, h2, h3, h4⟩ := gfin_appA L w b refs g
+      refine ⟨appA L w b refs, ?_, conf_appA hL q hl b refs, ?_, ?_, fun m _ => noSC_take (noSC_appA L w b refs) m, ?_, ?_,
+        fun r hr => adv_appA L w b refs r hr⟩
+      rotate_right 1
+      · rw [h4, recsAfterF_moved hl _ f b.length (by rw [e]; simp only [appendAt_root])]; rfl
       · rw [e]; exact erase_appA L w b refs
       · rw [e]
         exact ⟨by rw [h1]; simp only [appendAt_next]; exact hl.next,
@@ -64,9 +80,11 @@ theorem call_io (hL : L.OK) {w : Writer} {d : Disk} {g : G} (q : GQ L ck d g) (h
       · unfold doneAfterF; rw [e, gfin_done _ _ (noSC_appA L w b refs)]; rfl
       · intro r off x hx; exact absurd hx (noRootw_appA L w b refs r off x)
     · obtain ⟨e1, e2, e3, e4⟩ := appendAtF_fail (L := L) w b f hok
-      obtain ⟨h1, h2, h3⟩ := gfin_dataA L (cutOps (w.appendAt L b).2.2 f) g
+      obtain ⟨h1, h2, h3, h4⟩ := gfin_dataA L (cutOps (w.appendAt L b).2.2 f) g
       refine ⟨(cutOps (w.appendAt L b).2.2 f).map dataA, ?_, out_fail_append hL q hl b f, ?_, ?_,
-        fun m _ => noSC_take (noSC_dataA _) m, ?_⟩
+        fun m _ => noSC_take (noSC_dataA _) m, ?_, ?_, fun r hr => absurd hr (noAdv_dataA _ r)⟩
+      rotate_right 1
+      · rw [h4, recsAfterF_same w _ f (by simp only [Writer.stepF, e3]), List.append_nil]
       · simp only [Writer.stepF, e1]; exact erase_dataA _
       · simp only [Writer.stepF]
         exact ⟨by rw [h1, e4]; exact hl.next, by rw [h2, e3]; exact hl.gen, by rw [h3, e3]; exact hl.free⟩
@@ -79,9 +97,11 @@ theorem call_io (hL : L.OK) {w : Writer} {d : Disk} {g : G} (q : GQ L ck d g) (h
     rcases Nat.lt_trichotomy f.idx (w.appendAt L heads).2.2.length with hlt | heq | hgt
     · -- failure inside the head-set append
       obtain ⟨e1, e2, e3, e4⟩ := commitF_lt (L := L) (ck := ck) w heads fact f hlt
-      obtain ⟨h1, h2, h3⟩ := gfin_dataA L (cutOps (w.appendAt L heads).2.2 f) g
+      obtain ⟨h1, h2, h3, h4⟩ := gfin_dataA L (cutOps (w.appendAt L heads).2.2 f) g
       refine ⟨(cutOps (w.appendAt L heads).2.2 f).map dataA, ?_, out_fail_append hL q hl heads f, ?_, ?_,
-        fun m _ => noSC_take (noSC_dataA _) m, ?_⟩
+        fun m _ => noSC_take (noSC_dataA _) m, ?_, ?_, fun r hr => absurd hr (noAdv_dataA _ r)⟩
+      rotate_right 1
+      · rw [h4, recsAfterF_same w _ f (by simp only [Writer.stepF, e3]), List.append_nil]
       · simp only [Writer.stepF, e1]; exact erase_dataA _
       · simp only [Writer.stepF]
         exact ⟨by rw [h1, e4]; exact hl.next, by rw [h2, e3]; exact hl.gen, by rw [h3, e3]; exact hl.free⟩
@@ -91,13 +111,21 @@ theorem call_io (hL : L.OK) {w : Writer} {d : Disk} {g : G} (q : GQ L ck d g) (h
       · intro r off x hx; exact absurd hx (noRootw_dataA _ r off x)
     · -- the data barrier fails: the head set is appended, nothing else
       obtain ⟨e1, e2, e3, e4, e5⟩ := commitF_eq (L := L) (ck := ck) w heads fact f heq
-      obtain ⟨h1, h2, h3⟩ := gfin_appA L w heads refs g
+      obtain ⟨h1, h2, h3, h4⟩ := gfin_appA L w heads refs g
       have hns : NoSC (appA L w heads refs ++ [AOp.noop Op.failed]) := by
         intro a ha r he
         rcases List.mem_append.mp ha with h | h
         · exact noSC_appA L w heads refs a h r he
         · simp only [List.mem_singleton] at h; subst h; cases he
-      refine ⟨appA L w heads refs ++ [.noop .failed], ?_, ?_, ?_, ?_, fun m _ => noSC_take hns m, ?_⟩
+      refine ⟨appA L w heads refs ++ [.noop .failed], ?_, ?_, ?_, ?_, fun m _ => noSC_take hns m, ?_, ?_, ?_⟩
+      rotate_right 2
+      · simp only [gfin_append]
+        show (gfin L g (appA L w heads refs)).recs = _
+        rw [h4, recsAfterF_moved hl _ f heads.length (by simp only [Writer.stepF]; exact e4)]; rfl
+      · intro r hr
+        rcases List.mem_append.mp hr with h | h
+        · exact adv_appA L w heads refs r h
+        · simp only [List.mem_singleton] at h; cases h
       · simp only [Writer.stepF, e1, eraseAll_append, erase_appA]; rfl
       · rw [conf_append]; exact ⟨conf_appA hL q hl heads refs, Or.inl rfl, trivial⟩
       · simp only [Writer.stepF, gfin_append]
@@ -113,7 +141,7 @@ theorem call_io (hL : L.OK) {w : Writer} {d : Disk} {g : G} (q : GQ L ck d g) (h
         · simp only [List.mem_singleton] at h; cases h
     · -- the root write was reached
       obtain ⟨e1, e2, e3, e4⟩ := commitF_gt (L := L) (ck := ck) w heads fact f hgt
-      obtain ⟨h1, h2, h3⟩ := gfin_appA L w heads refs g
+      obtain ⟨h1, h2, h3, h4⟩ := gfin_appA L w heads refs g
       let a := commitRoot ck w heads fact
       let j := f.idx - ((w.appendAt L heads).2.2.length + 1)
       let X := appA L w heads refs ++ [AOp.sync false]
@@ -137,10 +165,21 @@ theorem call_io (hL : L.OK) {w : Writer} {d : Disk} {g : G} (q : GQ L ck d g) (h
         · rw [hX, ← hnx]; exact htorn
         · show (commitRoot ck w heads fact).gen = _; rw [g2, ← hl.gen]; rfl
         · show (commitRoot ck w heads fact).free = _; rw [g3]; rfl
-      obtain ⟨r1, r2, r3, r4⟩ := gfin_rootPart L a (gfin L g X).next j f.keep (gfin L g X)
+      obtain ⟨r1, r2, r3, r4, r5⟩ := gfin_rootPart L a (gfin L g X).next j f.keep (gfin L g X)
+      have g7 : (gfin L g X).recs = g.recs ++ [⟨w.root.free.toNat, heads, refs⟩] := by
+        simp only [X, gfin_append]; exact h4
       have hj3 : 3 ≤ j ↔ (w.appendAt L heads).2.2.length + 4 ≤ f.idx := by
         simp only [j]; omega
-      refine ⟨X ++ rootPart a (gfin L g X).next j f.keep, ?_, ?_, ?_, ?_, ?_, ?_⟩
+      refine ⟨X ++ rootPart a (gfin L g X).next j f.keep, ?_, ?_, ?_, ?_, ?_, ?_, ?_, ?_⟩
+      rotate_right 2
+      · simp only [gfin_append]
+        rw [r5, g7, recsAfterF_moved hl _ f heads.length (by simp only [Writer.stepF, e3]; rfl)]; rfl
+      · intro r hr
+        rcases List.mem_append.mp hr with h | h
+        · rcases List.mem_append.mp h with h' | h'
+          · exact adv_appA L w heads refs r h'
+          · simp only [List.mem_singleton] at h'; cases h'
+        · exact absurd h (noAdv_rootPart _ _ _ _ r)
       · simp only [Writer.stepF, e1, eraseAll_append, hX, erase_rootPart, ← hnx]
         rfl
       · rw [conf_append]; exact ⟨hcX, hcR⟩
